@@ -32,7 +32,7 @@ def _raise(*a):
     raise Alarm()
 
 
-def metric(sp, coords, cls, rng, poly=False):
+def metric(sp, coords, cls, rng, poly=False, kink=False):
     n = len(coords)
     R = lambda: sp.Rational(int(rng.integers(1, 7)), int(rng.integers(2, 6)))
 
@@ -40,6 +40,9 @@ def metric(sp, coords, cls, rng, poly=False):
         c = list(coords)
         rng.shuffle(c)
         kind = int(rng.integers(0, 2 if poly else 4))
+        if kink and rng.random() < 0.6:
+            # only piecewise smooth in a coordinate that may be negative (C^1)
+            return const + R() * c[0] * sp.Abs(c[0])
         if kind == 0:
             return const + R() * c[0]
         if kind == 1:
@@ -90,6 +93,11 @@ def cases(tier, sd):
     for k, (n, cls) in enumerate(simp):
         out.append(dict(dim=n, cls=cls, simplify=True, poly=True,
                         seed=1000 * sd + 500 + k, limit=lim))
+    # metrics that are only piecewise smooth (x|x|), evaluated on both sides
+    for k, (n, cls, simp_) in enumerate([(2, 'diagonal', True), (3, 'diagonal', True),
+                                         (2, 'dense', True), (4, 'diagonal', False)]):
+        out.append(dict(dim=n, cls=cls, simplify=simp_, poly=True, kink=True,
+                        seed=1000 * sd + 700 + k, limit=lim))
     # slowest first so that they start at once on their own shard
     out.sort(key=lambda c: (not c['simplify'], c['cls'] not in ('dense', 'offdiag2', 'block')))
     return out
@@ -102,7 +110,10 @@ def reference(sp, g, coords, pts):
         for b in range(n):
             exprs.append(g[a, b])
     d1 = [[[sp.diff(g[a, b], c) for b in range(n)] for a in range(n)] for c in coords]
-    d2 = [[[[sp.diff(d1[ci][a][b], e) for b in range(n)] for a in range(n)]
+    # (x|x| differentiates to terms x*DiracDelta(x), which vanish wherever the
+    #  result is evaluated: never at a kink)
+    nodelta = lambda ex: ex.replace(sp.DiracDelta, lambda *a: sp.Integer(0)) if hasattr(ex, 'replace') else ex
+    d2 = [[[[nodelta(sp.diff(d1[ci][a][b], e)) for b in range(n)] for a in range(n)]
            for e in coords] for ci in range(n)]
     f = sp.lambdify(coords, [g.tolist(), d1, d2], 'mpmath')
     import mpmath
@@ -143,9 +154,11 @@ def run_case(spec):
     n = spec['dim']
     coords = list(sp.symbols('t x y z', real=True))[4 - n:] if n < 4 else \
         list(sp.symbols('t x y z', real=True))
-    g = metric(sp, coords, spec['cls'], rng, poly=spec.get('poly', False))
+    g = metric(sp, coords, spec['cls'], rng, poly=spec.get('poly', False), kink=spec.get('kink', False))
     pts = [[sp.Rational(int(rng.integers(2, 12)), 10) for _ in coords]
            for _ in range(3)]
+    if spec.get('kink'):      # both sides of the kinks
+        pts = [[q * int(rng.choice([-1, 1])) for q in pt] for pt in pts]
     ref = reference(sp, g, coords, pts)
     order = list(rng.permutation(KEYS))
     signal.signal(signal.SIGALRM, _raise)
